@@ -434,16 +434,33 @@ def np_negative(a):
     return -a
 
 
-def np_isnan(a):
+def _nf(a, which):
+    """which: 0 isinf, 1 isnan, 2 isfinite -- exact for values produced by a plain division, False/True otherwise"""
+    def one(cell):
+        i, n = S.nonfinite_conditions(cell)
+        return [i, n, S._simp(z3.Not(z3.Or(i, n)))][which]
     if isinstance(a, ndarray):
-        return _new([S._F()] * a.size, a.shape, 'b')
-    return False
+        d = a.data if isinstance(a, MaskedArray) else a
+        r = _new([one(c) for c in d.cells()], d.shape, 'b')
+        if isinstance(a, MaskedArray):
+            return MaskedArray(r, None if a._mask is None else a._mask.copy(), True)
+        return r
+    if isinstance(a, SymNum):
+        t = S._simp(one(a.e))
+        return True if z3.is_true(t) else (False if z3.is_false(t) else SymBool(t))
+    return [False, False, True][which]
+
+
+def np_isinf(a):
+    return _nf(a, 0)
+
+
+def np_isnan(a):
+    return _nf(a, 1)
 
 
 def np_isfinite(a):
-    if isinstance(a, ndarray):
-        return _new([S._T()] * a.size, a.shape, 'b')
-    return True
+    return _nf(a, 2)
 
 
 def np_any(a, axis=None):
@@ -708,7 +725,8 @@ def apply():
     N.less, N.less_equal = _binary(operator.lt, 'less'), _binary(operator.le, 'less_equal')
     N.greater, N.greater_equal = _binary(operator.gt, 'greater'), _binary(operator.ge, 'greater_equal')
     N.equal, N.not_equal = _binary(operator.eq, 'equal'), _binary(operator.ne, 'not_equal')
-    N.isnan = N.isinf = N.isneginf = N.isposinf = np_isnan
+    N.isnan = np_isnan
+    N.isinf = N.isneginf = N.isposinf = np_isinf
     N.isfinite = np_isfinite
     N.isclose, N.allclose = np_isclose, np_allclose
     N.errstate = errstate
